@@ -349,20 +349,27 @@ def first_value(v, L):
 
 
 def run_pair(ctx, L, R):
+    for alias in ((False, True) if (L.name == R.name and islib(L)) else (False,)):
+        _run_pair(ctx, L, R, alias)
+
+
+def _run_pair(ctx, L, R, alias):
     for opn, opf in OPS:
-        cid = 'C08/%s/%s/%s' % (L.name, opn, R.name)
+        cid = 'C08/%s/%s/%s%s' % (L.name, opn, R.name, '/alias' if alias else '')
         if not ctx.want(cid):
             continue
         lo, ro = L.make(), R.make()
+        if alias:
+            ro = lo             # the same object on both sides (two names for one value)
         aug = opn.endswith('=') and opn not in ('==', '!=')
-        if aug and L.cls == 'list':
+        if aug and (L.cls == 'list' or alias):
             continue        # list += <iterable> / list *= n is Python's own list semantics: the library is never consulted
         vd = verdict(L, R, opn[:-1] if aug else opn)
         triv = not (islib(L) or islib(R))
         ctx.case(cid, key=cid, trivial=triv)
         ok, v = call(opf, lo, ro)
         ctx.cell(L.cls, opn, R.cls, 'raised' if not ok else classname(v))
-        P = dict(left=L.cls, right=R.cls, op=opn, m=L.n, n=R.n, ltag=L.tag or '', rtag=R.tag or '')
+        P = dict(left=L.cls, right=R.cls, op=opn, m=L.n, n=R.n, ltag=L.tag or '', rtag=R.tag or '', alias=int(alias))
         site = '%s.%s' % (L.cls if islib(L) else R.cls, {'*': 'mul', '/': 'div', '+': 'add', '-': 'sub', '**': 'pow', '@': 'matmul',
                                                        '==': 'eq', '!=': 'ne', '^': 'xor', '|': 'or', '*=': 'imul', '/=': 'idiv', '+=': 'iadd', '-=': 'isub'}[opn])
         nexp = max(L.n, R.n)
